@@ -86,7 +86,8 @@ def run_demos(src, d, demos):
         if not f.endswith(".scm"):
             continue
         p = os.path.join(d, f)
-        for mode, cmd in (("file", "./_build/chibi-scheme -I _build/lib %s" % p), ("stdin", "./_build/chibi-scheme -I _build/lib < %s" % p)):
+        inc = "-I _build/lib" + (" -I %s" % os.path.join(d, "libs") if os.path.isdir(os.path.join(d, "libs")) else "")
+        for mode, cmd in (("file", "./_build/chibi-scheme %s %s" % (inc, p)), ("stdin", "./_build/chibi-scheme %s < %s" % (inc, p))):
             r = sh("cd %s && timeout 300 %s 2>&1 | tail -25 | cut -c1-300; echo \"exit=${PIPESTATUS[0]}\"" % (src, cmd), executable="/bin/bash")
             out["%s (%s)" % (f, mode)] = r.stdout
     return out
